@@ -89,6 +89,9 @@ func runC16(c *fw.Case) {
 		}
 		o := outs[c.R.Intn(len(outs))]
 		rq := cand.genRequest(o)
+		if rq.Stop == 0 { // the fault placements are enumerated over a bounded request
+			rq.Stop = cand.H
+		}
 		rq.Final = cand.cl.Head
 		rq.Workers = 1 + c.R.Intn(3)
 		rq.OrderSeed = 0
